@@ -39,6 +39,8 @@ pub struct Rules {
     pub c04: bool,
     pub c07: bool,
     pub c08: bool,
+    /// C09: the transfer uses exactly the acknowledged values (burst length, ACK cadence, timeout)
+    pub c09: bool,
 }
 
 #[derive(Clone, Copy, PartialEq, Eq, Debug)]
@@ -108,6 +110,8 @@ struct Tr {
     no_verdict_c08: bool,
     last_action_was_final: bool,
     fs_cleanup_seen: bool,
+    call_t: Ns,
+    recvs_since_burst: u32,
 }
 
 pub struct XferMon {
@@ -134,6 +138,25 @@ fn slice_of(content: &[u8], b: usize, i: u64) -> &[u8] {
     } else {
         &content[st..(st + b).min(content.len())]
     }
+}
+
+/// File length plus the bytes in [from, to) (shorter if the file is).
+fn read_range(path: &std::path::Path, from: usize, to: usize) -> std::io::Result<(u64, Vec<u8>)> {
+    use std::io::{Read, Seek, SeekFrom};
+    let mut f = std::fs::File::open(path)?;
+    let flen = f.metadata()?.len();
+    f.seek(SeekFrom::Start(from as u64))?;
+    let mut buf = vec![0u8; to.saturating_sub(from)];
+    let mut got = 0;
+    while got < buf.len() {
+        let n = f.read(&mut buf[got..])?;
+        if n == 0 {
+            break;
+        }
+        got += n;
+    }
+    buf.truncate(got);
+    Ok((flen, buf))
 }
 
 fn first_diff(a: &[u8], b: &[u8]) -> usize {
@@ -223,6 +246,8 @@ impl XferMon {
                 no_verdict_c08: false,
                 last_action_was_final: false,
                 fs_cleanup_seen: false,
+                call_t: 0,
+                recvs_since_burst: 0,
             },
         );
         true
@@ -305,13 +330,13 @@ impl XferMon {
                         }
                         Some(i) => {
                             if i > n_final {
-                                if (rules.c01 || rules.c07) && viol.is_none() {
+                                if (rules.c01 || rules.c07 || rules.c09) && viol.is_none() {
                                     viol = Some((
                                         "block_beyond_final".into(),
                                         format!("DATA({n}) = block {i} with {} bytes, but the final block of the {}-byte file at blksize {b} is {n_final}", payload.len(), content.len()),
                                     ));
                                 }
-                            } else if rules.c01 && viol.is_none() {
+                            } else if (rules.c01 || rules.c09) && viol.is_none() {
                                 let want = slice_of(&content, b, i);
                                 if payload.as_slice() != want {
                                     viol = Some((
@@ -355,6 +380,13 @@ impl XferMon {
                                     }
                                     if !by_ack && by_time {
                                         probes.push("timeout_retransmission");
+                                        if rules.c09 && viol.is_none() && t.last_recv == LastRecv::Timeout && t.recvs_since_burst == 1 {
+                                            let iv = st.t.saturating_sub(t.last_tx);
+                                            if iv > t.neg.tmo + 10 * crate::world::MS {
+                                                viol = Some(("retransmit_interval".into(), format!("retransmission {} ms after the last transmission; acknowledged timeout is {} s", iv / crate::world::MS, t.neg.tmo / SEC)));
+                                            }
+                                            probes.push("retransmit_interval_measured");
+                                        }
                                     }
                                     if by_ack && i <= t.highest_sent {
                                         probes.push("gap_retransmission_after_partial_ack");
@@ -363,6 +395,7 @@ impl XferMon {
                                 t.judged_dupstale = true;
                             }
                             t.burst_len += 1;
+                            t.recvs_since_burst = 0;
                             if rules.c07 && viol.is_none() && t.burst_len > w * (dupn + 1) {
                                 viol = Some(("more_than_window_per_burst".into(), format!("{} DATA datagrams in one burst, windowsize {w}, copies {}", t.burst_len, dupn + 1)));
                             }
@@ -384,16 +417,15 @@ impl XferMon {
                     }
                     if rules.c02 && viol.is_none() {
                         let want_len = ((k as usize).saturating_mul(b)).min(content.len());
-                        let disk = std::fs::read(&path);
-                        match disk {
-                            Ok(f) => {
-                                let full_check = want_len <= 256 * 1024 || (t.final_received && k == t.inorder);
-                                let from = if full_check { 0 } else { t.verified_len.min(want_len) };
-                                if f.len() != want_len || f[from..] != content[from..want_len] {
-                                    let fd = first_diff(&f, &content[..want_len]);
+                        let full_check = want_len <= 256 * 1024 || (t.final_received && k == t.inorder);
+                        let from = if full_check { 0 } else { t.verified_len.min(want_len) };
+                        match read_range(&path, from, want_len) {
+                            Ok((flen, bytes)) => {
+                                if flen != want_len as u64 || bytes[..] != content[from..want_len] {
+                                    let fd = from + first_diff(&bytes, &content[from..want_len]);
                                     viol = Some((
                                         "ack_before_stored".into(),
-                                        format!("at ACK({n}) = block {k} the file holds {} bytes, expected exactly the {} bytes of blocks 1..{k}; first difference at byte {fd}", f.len(), want_len),
+                                        format!("at ACK({n}) = block {k} the file holds {flen} bytes, expected exactly the {want_len} bytes of blocks 1..{k}; first difference at byte {fd}"),
                                     ));
                                 }
                                 t.verified_len = want_len;
@@ -405,6 +437,12 @@ impl XferMon {
                     }
                     if d == 0 {
                         probes.push("re_ack_of_last_block");
+                    }
+                    if rules.c09 && viol.is_none() && d > 0 && !(t.final_received && k == t.inorder) && t.since_ack != t.neg.w.max(1) {
+                        viol = Some(("ack_cadence".into(), format!("ACK({n}) after {} in-order blocks; acknowledged windowsize is {}", t.since_ack, t.neg.w)));
+                    }
+                    if rules.c09 && d > 0 {
+                        probes.push("ack_cadence_measured");
                     }
                     t.acked_last = k;
                     t.since_ack = 0;
@@ -429,6 +467,7 @@ impl XferMon {
             return None;
         }
         let rules = self.rules;
+        let dupn = self.dup;
         let n_final = self.n_final(&self.tr[&task]);
         let kind = self.specs[self.tr[&task].spec].kind;
         let mut probes: Vec<&'static str> = vec![];
@@ -437,6 +476,15 @@ impl XferMon {
             let t = self.tr.get_mut(&task).unwrap();
             match r {
                 WRecv::Call => {
+                    if rules.c09 && kind == Kind::Download && t.burst_open && !t.error_seen {
+                        let want = t.neg.w.max(1).min(n_final.saturating_sub(t.acked)) * (dupn + 1);
+                        if t.burst_len != want {
+                            viol = Some(("burst_not_windowsize".into(), format!("{} DATA datagrams were sent before the next receive; acknowledged windowsize {} (blocks left {}, copies {})", t.burst_len, t.neg.w, n_final.saturating_sub(t.acked), dupn + 1)));
+                        }
+                        probes.push("burst_measured");
+                    }
+                    t.call_t = _st.t;
+                    t.recvs_since_burst += 1;
                     t.burst_open = false;
                     t.judged_dupstale = true;
                     if rules.c07 && t.error_seen {
@@ -457,6 +505,13 @@ impl XferMon {
                     t.last_action_was_final = false;
                 }
                 WRecv::Timeout | WRecv::Err => {
+                    if rules.c09 && matches!(r, WRecv::Timeout) {
+                        let iv = _st.t.saturating_sub(t.call_t);
+                        if iv < t.neg.tmo || iv > t.neg.tmo + 10 * crate::world::MS {
+                            viol = Some(("receive_timeout_interval".into(), format!("a receive timed out after {} ms; acknowledged timeout is {} s", iv / crate::world::MS, t.neg.tmo / SEC)));
+                        }
+                        probes.push("receive_timeout_measured");
+                    }
                     t.consecutive_fail += 1;
                     t.fails_in_window += 1;
                     t.max_fails_in_window = t.max_fails_in_window.max(t.fails_in_window);
@@ -654,6 +709,10 @@ impl XferMon {
 impl Monitor for XferMon {
     fn on_event(&mut self, w: &Inner, st: &Stamp, ev: &Ev) -> Option<Violation> {
         let norm = self.attr.feed(ev);
+        if let Ev::Spawn { task, .. } = ev {
+            // bind the negotiated values of the request being handled to the new worker right away
+            self.ensure(*task);
+        }
         if let Some((task, r)) = norm {
             if let Some(v) = self.on_wrecv(st, task, r) {
                 return Some(v);
